@@ -177,6 +177,8 @@ def run(repo: Repo, tier: str) -> Report:
     ob("R-FORMULA", "the run index starts at 0 and advances by one after each store", okk,
        f"init {[d.rhs.key() for d in k_init]}, inc {[(d.rhs.key(), list(d.guards)) for d in k_inc]}", k_inc[0].stmt if k_inc else K)
     divguard(rep, repo, kernels, ["tinterpolate"], flavours=("scalar",))
+    from ..rules import no_early_exit
+    no_early_exit(rep, sc, FILE, "tinterpolate", "scatter loop and label scan")
 
     # ---- accessor
     site = [s for s in load_sites(repo, kernels) if s.kernel == "tinterpolate"]
